@@ -176,6 +176,10 @@ var brackets = []string{
 	`[\p{Other_Lowercase}]`, `[\000-\010\012-\025]`, `[arz\n-]`, `[\000-\n\014-\125]`, `[-\n\014-\125]`, `[a-c][b-d]`, `[ab][^ab]`,
 	`[a-cx-z]`, `[x-za-c]`, `[a-mc-z]`, `[a-cb]`, `[b-da-e]`, `[ac-eg]`, `[\x00]`, `[^\x00]`, `[\x00-\U0010ffff]`, `[^\x00-\U0010ffff]`,
 	`[^\p{Any}]`, `[\p{Any}]`, `[^\x01-\U0010fffe]`, `[^\x00-\xfe]`, `[^\x01-\xff]`, `[\x7f-\x80]`, `[k]`, `[s]`,
+	// subtraction that splits an early range while later ranges are still to come
+	`[A-Za-z-[M]]`, `[a-cx-z-[b]]`, `[a-cx-z-[by]]`, `[0-9A-Za-z-[5Mm]]`, `[a-cx-z-[b]-[y]]`, `[a-ce-gi-k-[bfj]]`, `[a-ce-g-[a-c]]`,
+	`[a-ce-g-[e-g]]`, `[a-ce-g-[c-e]]`, `[a-ce-g-[d]]`, `[a-ce-g-[a-g]]`, `[a-ce-g-[\x00-\U0010ffff]]`, `[a-z-[b]-[d]-[f]]`, `[a-z-[bdf]]`,
+	`[^a-cx-z-[b]]`, `[\d\w-[5M]]`, `[a-z-[^b-y]]`,
 }
 
 var quantBases = []string{`a`, `[ab]`, `(ab)`, `(a|b)`, `\x41`, `a*`, `(?i)a`, `a|b`, ``, `(`, `|`, `(?i)`, `()`, `(a|)`, `\p{Lu}`, `{a}`, `ab`, `aé`}
